@@ -14,10 +14,11 @@ record `Env`.
 -/
 namespace Juno.C12
 
-abbrev Addr := Nat
-abbrev Val := Nat
-abbrev Height := Nat
-abbrev Round := Int
+-- Notations (not `abbrev`s) so that `omega` sees plain `Nat` / `Int` in every hypothesis.
+scoped notation "Addr" => Nat
+scoped notation "Val" => Nat
+scoped notation "Height" => Nat
+scoped notation "Round" => Int
 
 inductive Step | propose | prevote | precommit
   deriving DecidableEq, Repr, Inhabited
